@@ -1,8 +1,9 @@
 """C01 -- cells stay with their rows under any operation history."""
 from histprop import HistProp
+from core_props import ProbeMixin, series_payload_probes
 
 
-class C01(HistProp):
+class C01(ProbeMixin, HistProp):
     id = 'C01'
     props_file = 'theories/Props/C01.v'
     rule = ('seeded random operation histories (6-16 steps quick, 10-40 thorough) over a pool of related and unrelated '
@@ -17,9 +18,15 @@ class C01(HistProp):
         'Spec/Table.v, Spec/Ops.v: the hand-written positional reference model (the "plain list-of-rows model" of the property)',
     ]
     assumptions = [
-        'Series payload columns are not in the modelled alphabet',
+        'Series payload columns are not in the modelled alphabet; they are followed through derivation chains by Python-side probes',
         'random operations take the permutation the implementation produced as an oracle argument, validated in Coq',
     ]
+
+    def generate(self, rng, tier):
+        return super().generate(rng, tier) + self.direct_probes(rng, 80 if tier == 'quick' else 800)
+
+    def direct_probes(self, rng, n):
+        return series_payload_probes(rng, n, 'C01')
 
 
 PROP = C01()
